@@ -122,7 +122,7 @@ class MosFile:
             'roElementAction': ElementAction,
         }
         for tag, subcls in tag_class_map.items():
-            if xml.find(tag):
+            if xml.find(tag) is not None:
                 if subcls == ElementAction:
                     return ElementAction._classify(xml)
                 return subcls(xml)
@@ -1285,7 +1285,7 @@ class ElementAction(MosFile):
         Classify the MOS type and return an instance of the relevant class
         """
         ea = xml.find('roElementAction')
-        operation = ea.attrib['operation']
+        operation = ea.attrib.get('operation')
 
         # are there any itemID tags in element_target?
         try:
@@ -1294,7 +1294,10 @@ class ElementAction(MosFile):
             target_item = False
 
         # are there any itemID tags in element_source?
-        source_item = len(ea.find('element_source').findall('itemID')) > 0
+        source = ea.find('element_source')
+        if source is None:
+            raise UnknownMosFileType("Unable to determine MOS file type")
+        source_item = len(source.findall('itemID')) > 0
 
         # use the combination of operation, target_item and source_item to
         # determine the subclass
@@ -1310,7 +1313,9 @@ class ElementAction(MosFile):
             ('SWAP', False, True): EAItemSwap,
             ('MOVE', False, False): EAStoryMove,
             ('MOVE', True, True): EAItemMove,
-        }[(operation, target_item, source_item)]
+        }.get((operation, target_item, source_item))
+        if subcls is None:
+            raise UnknownMosFileType("Unable to determine MOS file type")
         return subcls(xml)
 
     @property
